@@ -229,6 +229,11 @@ def null_border_cases():
         # the TYPE decides, not the field: an 8-bit anonymous bits in a [+n] field is one unit long
         ("boundary-ok:implicit-null:8-bit-anonymous-bits-in-dynamic-field", True, ["0 [+1]  UInt  n", "1 [+n]  bits:", "  0 [+3]  UInt  a", "  3 [+5]  UInt  b"], 1),
         (REQ + ":16-bit-anonymous-bits-in-dynamic-field", False, ["0 [+1]  UInt  n", "1 [+n]  bits:", "  0 [+3]  UInt  a", "  3 [+13]  UInt  b"], 1),
+        # an anonymous bits block SHORTER than one byte: still one unit only in a one-byte field
+        ("boundary-ok:implicit-null:4-bit-anonymous-bits-in-one-byte", True, ["0 [+1]  bits:", "  0 [+4]  UInt  a"], 0),
+        (REQ + ":4-bit-anonymous-bits-in-two-bytes", False, ["0 [+2]  bits:", "  0 [+4]  UInt  a"], 0),
+        (REQ + ":7-bit-anonymous-bits-in-four-bytes", False, ["0 [+4]  bits:", "  0 [+3]  UInt  a", "  3 [+4]  UInt  b"], 0),
+        (REQ + ":4-bit-anonymous-bits-in-dynamic-field", False, ["0 [+1]  UInt  n", "1 [+n]  bits:", "  0 [+4]  UInt  a"], 1),
         ("boundary-ok:implicit-null:uint8-array", True, ["0 [+4]  UInt:8[4]  us"], 0),
         ("boundary-ok:implicit-null:one-byte-uint", True, ["0 [+1]  UInt  u"], 0),
         (REQ + ":two-byte-uint", False, ["0 [+2]  UInt  u"], 0),
